@@ -1,6 +1,166 @@
-/-! Driver commands of the `Log` cluster.  `handle` returns `none` for commands that are not its own. -/
+import TbotVerif.Base.Bytes
+import TbotVerif.Spec.Log
+/-! Driver commands of the `Log` cluster (C17).  `handle` returns `none` for commands that are not its own.
+
+    `log ev <gv> <nest|-> <uni> <color> <lf> <ty> <kw> <v0> <nf> <msg> <pfx1> <v1> <op>*`
+      → `<hdr> <stored> <docs> <step>*`
+    `log pf <n> <id>/<len>[/…]*` → `<yielded> <trace>`
+    `spec C17 <case…> || <obs…>` → `1` / `0`
+
+    Text is UTF-8 in lower-case hex (`-` = empty); a *payload* is `+`-joined chunks `hex` or
+    `hex*n` (repeat); an optional string is `-` (None), `_` (empty) or a payload. -/
+namespace Log.Wire
+
+def chars (t : Str) : String := Bytes.toHex (String.ofList t).toUTF8.toList
+
+def charsOf (s : String) : Option Str := do
+  let b ← Bytes.ofHex s
+  let str ← String.fromUTF8? (ByteArray.mk b.toArray)
+  pure str.toList
+
+def chunk (s : String) : Option Str :=
+  match s.splitOn "*" with
+  | [h] => charsOf h
+  | [h, n] => do
+    let n ← n.toNat?
+    let c ← charsOf h
+    pure (List.replicate n c).flatten
+  | _ => none
+
+def payload (s : String) : Option Str :=
+  if s == "-" then some [] else ((s.splitOn "+").mapM chunk).map List.flatten
+
+def optStr (s : String) : Option (Option Str) :=
+  if s == "-" then some none else if s == "_" then some (some []) else (payload s).map some
+
+def bool (s : String) : Option Bool :=
+  if s == "1" then some true else if s == "0" then some false else none
+
+def optNat (s : String) : Option (Option Nat) :=
+  if s == "-" then some none else s.toNat?.map some
+
+def listOf {α} (sep : String) (f : String → Option α) (s : String) : Option (List α) :=
+  if s == "." then some [] else (s.splitOn sep).mapM f
+
+def sepBy (sep : String) (l : List String) : String :=
+  if l.isEmpty then "." else sep.intercalate l
+
+def pair (sep : String) (s : String) : Option (Str × Str) :=
+  match s.splitOn sep with
+  | [k, v] => do pure (← charsOf k, ← charsOf v)
+  | _ => none
+
+def op (s : String) : Option Op :=
+  match s.splitOn ":" with
+  | ["w", p] => (payload p).map .write
+  | ["wl", p] => (payload p).map .writeln
+  | ["sd", k] => (charsOf k).map .setData
+  | ["close"] => some .close
+  | _ => none
+
+def evCase (toks : List String) : Option EvCase :=
+  match toks with
+  | gv :: nest :: uni :: color :: lf :: ty :: kw :: v0 :: nf :: msg :: pfx1 :: v1 :: ops => do
+    let g : Glob := { verbosity := ← gv.toNat?, nesting := ← optNat nest, unicode := ← bool uni,
+                      color := ← bool color, logOn := ← bool lf }
+    pure { g := g, ty := ← listOf "," charsOf ty, kw := ← listOf "," (pair "/") kw,
+           verb0 := ← v0.toNat?, nestFirst := ← optStr nf, msg := ← payload msg,
+           pfx1 := ← optStr pfx1, verb1 := ← v1.toNat?, ops := ← ops.mapM op }
+  | _ => none
+
+def pfDoc (s : String) : Option (Nat × Nat) :=
+  match s.splitOn "/" with
+  | id :: len :: _ => do pure (← id.toNat?, ← len.toNat?)
+  | _ => none
+
+def pfCase (toks : List String) : Option PfCase :=
+  match toks with
+  | n :: docs => do pure { n := ← n.toNat?, docs := ← docs.mapM pfDoc }
+  | _ => none
+
+def case (toks : List String) : Option Case :=
+  match toks with
+  | "ev" :: rest => (evCase rest).map .ev
+  | "pf" :: rest => (pfCase rest).map .pf
+  | _ => none
+
+def doc (d : Doc) : String :=
+  sepBy ";" (d.ty.map chars) ++ "/" ++ sepBy ";" (d.data.map fun kv => chars kv.1 ++ ":" ++ chars kv.2)
+
+def docOf (s : String) : Option Doc :=
+  match s.splitOn "/" with
+  | [t, d] => do pure { ty := ← listOf ";" charsOf t, data := ← listOf ";" (pair ":") d }
+  | _ => none
+
+def stepRes (s : Res × Str) : String :=
+  match s.1 with
+  | .wrote n => s!"w:{n}:{chars s.2}"
+  | .unit => s!"u:{chars s.2}"
+  | .closedErr => s!"e:{chars s.2}"
+
+def stepResOf (s : String) : Option (Res × Str) :=
+  match s.splitOn ":" with
+  | ["w", n, d] => do pure (.wrote (← n.toNat?), ← charsOf d)
+  | ["u", d] => do pure (.unit, ← charsOf d)
+  | ["e", d] => do pure (.closedErr, ← charsOf d)
+  | _ => none
+
+def pstep : PStep → String
+  | .read k => s!"r{k}"
+  | .fail n => s!"f{n}"
+  | .ok n i => s!"k{n}/{i}"
+  | .fuel => "X"
+
+def pstepOf (s : String) : Option PStep :=
+  match s.toList with
+  | 'r' :: t => (String.ofList t).toNat?.map .read
+  | 'f' :: t => (String.ofList t).toNat?.map .fail
+  | 'k' :: t =>
+    match (String.ofList t).splitOn "/" with
+    | [n, i] => do pure (.ok (← n.toNat?) (← i.toNat?))
+    | _ => none
+  | ['X'] => some .fuel
+  | _ => none
+
+def obs : Obs → String
+  | .ev o => " ".intercalate ([chars o.hdr, chars o.stored, sepBy "," (o.docs.map doc)] ++ o.steps.map stepRes)
+  | .pf o => sepBy "," (o.yielded.map toString) ++ " " ++ sepBy "," (o.trace.map pstep)
+
+/-- the observation is parsed according to the kind of the case -/
+def obsOf (c : Case) (toks : List String) : Option Obs :=
+  match c, toks with
+  | .ev _, h :: st :: ds :: steps => do
+    pure (.ev { hdr := ← charsOf h, stored := ← charsOf st, docs := ← listOf "," docOf ds,
+                steps := ← steps.mapM stepResOf })
+  | .pf _, [y, t] => do
+    pure (.pf { yielded := ← listOf "," String.toNat? y, trace := ← listOf "," pstepOf t })
+  | _, _ => none
+
+end Log.Wire
+
 namespace Driver.Log
 
-def handle (_toks : List String) : Option String := none
+def splitAt2 (toks : List String) (sep : String) : List String × List String :=
+  (toks.takeWhile (· != sep), (toks.dropWhile (· != sep)).drop 1)
+
+def handle (toks : List String) : Option String :=
+  match toks with
+  | ["log", "space", n] =>
+    some (match n.toNat? with
+    | some n => if Log.pySpace (Char.ofNat n) then "1" else "0"
+    | none => "bad-op")
+  | "log" :: rest =>
+    some (match Log.Wire.case rest with
+    | some c => Log.Wire.obs (Log.run c)
+    | none => "bad-op")
+  | "spec" :: "C17" :: rest =>
+    let (ct, ot) := splitAt2 rest "||"
+    some (match Log.Wire.case ct with
+    | some c =>
+      match Log.Wire.obsOf c ot with
+      | some o => if Spec.C17 c o then "1" else "0"
+      | none => "bad-op"
+    | none => "bad-op")
+  | _ => none
 
 end Driver.Log
